@@ -1012,7 +1012,10 @@ func (c *Ctx) c05Errors(headerSites, bodySites []readSite) {
 					return
 				}
 				seen[x] = true
-				if ret, ok := x.Instrs[len(x.Instrs)-1].(*ssa.Return); ok {
+				if ret, ok := x.Instrs[len(x.Instrs)-1].(*ssa.Return); ok && len(ret.Results) == 0 {
+					// a function without results cannot hand the error on
+					okRet, why = false, "the function returns nothing on the path that follows the failed read"
+				} else if ok {
 					e := ret.Results[len(ret.Results)-1]
 					good := false
 					for _, s := range flow.SpillSources(e) {
